@@ -395,9 +395,9 @@ SCENARIO_UNITS = {
     'C03': [('consumer', 400, 'commit()/auto-commit chains across processor results: a committed offset was successfully processed')],
     'C02': [('consumer', 400, 'delivery order / no concurrent invocation across fetch replies, retries and compaction gaps')],
     'C04': [('magic_fallback', 1, 'message format chosen before the API version is known (Producer._send_requests + failed discovery): deterministic reproducer')],
-    'C09': [('producer_e2e', 600, 'Producer + real KafkaClient + codec over simulated broker connections: acknowledged payloads never re-sent, per-partition order inside every request, transmissions bounded by the attempt limit')],
-    'C19': [('producer_e2e', 600, 'Producer + real KafkaClient over simulated broker connections: no produce request reaches a connection after stop()')],
-    'C01': [('producer_e2e', 600, 'Producer + real KafkaClient + codec over simulated broker connections answering ok / error codes / dropping / staying silent, leader moves, cancellations: success only with an error-free acknowledgement from the leader of exactly those messages, result names topic and partition, fires exactly once'),
+    'C09': [('producer_e2e', 2000, 'Producer + real KafkaClient + codec over simulated broker connections: acknowledged payloads never re-sent, per-partition order inside every request, transmissions bounded by the attempt limit')],
+    'C19': [('producer_e2e', 2000, 'Producer + real KafkaClient over simulated broker connections: no produce request reaches a connection after stop()')],
+    'C01': [('producer_e2e', 2000, 'Producer + real KafkaClient + codec over simulated broker connections answering ok / error codes / dropping / staying silent, leader moves, cancellations: success only with an error-free acknowledgement from the leader of exactly those messages, result names topic and partition, fires exactly once'),
             ('broker_aware', 300, 'KafkaClient._send_broker_aware_request with acks=0/1 and failing brokers (polymorphic @inlineCallbacks code)')],
     'C07': [('broker_aware', 300, 'every payload routed to its leader / the coordinator, one request per broker with exactly its payloads, responses in payload order whatever order brokers answer in, failed payloads accounted for exactly once, no request when a payload has no leader'),
             ('broker_unaware', 1, 'fallback order of broker-agnostic requests: connected brokers, other known brokers, every bootstrap host, then unavailable')],
